@@ -141,9 +141,9 @@ func IterateConsensusStateAscending(clientStore sdk.KVStore,
 
 	for ; iterator.Valid(); iterator.Next() {
 		key := iterator.Key()
-		keySplit := strings.Split(string(key), "/")
-		// processed time key in prefix store has format: "consensusStates/<height>"
-		if len(keySplit) != 2 {
+		// consensus state key in prefix store has format: "consensusStates/<height>".
+		// The height is binary (it may contain '/'), so it is parsed at fixed offsets.
+		if _, _, ok := host.ParseConsensusStateKey(key); !ok {
 			// ignore all not consensus state keys
 			continue
 		}
